@@ -4,5 +4,3 @@ import "unicode/utf8"
 
 func decodeRune(b []byte) (rune, int) { return utf8.DecodeRune(b) }
 
-// corpusLexJobs: the repository's own grammars as IR (filled in by corpus.go when available).
-func corpusLexJobs(startIndex int) []*GenJob { return nil }
